@@ -380,7 +380,8 @@ class CorrelationFunction(DFunction, UnitsManaged):
         ctime = params["gamma"]
         
         # use the units in which params was defined
-        lamb = params["reorg"]
+        # (the reorganization energy is kept in internal units)
+        lamb = self.convert_energy_2_internal_u(params["reorg"])
         time = self.axis #.data
 
         if values is not None:
